@@ -31,8 +31,8 @@ PROPS = {
     "C03": dict(fams=[("short", 1, "fast"), ("deep", 1, "fast"), ("malformed", 2500, "fast"), ("text", 400, "fast"), ("escapes", 1, "fast"), ("numshort", 1, "fast"), ("num", 3000, "fast"), ("num", 1000, "nofast"), ("faults", 60, "fast")], mult=10, special="abort"),
     "C04": dict(fams=[("serde", 1500, "fast")], mult=20),
     "C05": dict(fams=[("num", 6000, "fast"), ("numshort", 1, "fast"), ("num", 3000, "nofast"), ("numshort", 1, "nofast")], mult=20),
-    "C06": dict(fams=[("text", 1200, "fast"), ("faults", 150, "fast"), ("malformed", 1200, "fast"), ("escapes", 1, "fast"), ("num", 1500, "fast")], mult=10),
-    "C07": dict(fams=[("print", 1500, "fast"), ("sink", 3000, "fast"), ("printall", 1, "fast")], mult=10),
+    "C06": dict(fams=[("text", 1200, "fast"), ("faults", 150, "fast"), ("malformed", 1200, "fast"), ("escapes", 1, "fast"), ("num", 1500, "fast"), ("serde", 200, "fast")], mult=10),
+    "C07": dict(fams=[("print", 1500, "fast"), ("sink", 3000, "fast"), ("printall", 1, "fast"), ("serde", 200, "fast")], mult=10),
     "C08": dict(fams=[("tok", 1, "fast"), ("numshort", 1, "fast"), ("opts", 1, "fast")], mult=2),
     "C09": dict(fams=[], mult=10, special="macro"),
     "C10": dict(fams=[("text", 1500, "fast"), ("malformed", 1500, "fast"), ("deep", 1, "fast"), ("tok", 1, "fast")], mult=10),
@@ -44,7 +44,7 @@ PROPS = {
     "C16": dict(fams=[("consops", 1200, "fast")], mult=1, special="depth"),
     "C17": dict(fams=[("malformed", 3000, "fast"), ("text", 600, "fast"), ("print", 800, "fast"), ("printall", 1, "fast"), ("escapes", 1, "fast"), ("chars", 1, "fast")], mult=10),
     "C18": dict(fams=[("deser", 3000, "fast")], mult=20),
-    "C19": dict(fams=[("prefix", 250, "fast"), ("malformed", 2000, "fast"), ("escapes", 1, "fast"), ("prefix", 80, "nofast")], mult=10),
+    "C19": dict(fams=[("prefix", 250, "fast"), ("malformed", 2000, "fast"), ("escapes", 1, "fast"), ("prefix", 80, "nofast"), ("serde", 200, "fast")], mult=10),
     "C20": dict(fams=[("prims", 2500, "fast"), ("values", 800, "fast")], mult=20),
 }
 
